@@ -576,6 +576,19 @@ pub fn run(tier: Tier) -> Run {
             while let Some(s) = stack.pop() {
                 let insts: Vec<Inst> = s.iter().enumerate().map(|(i, &k)| rep_inst(SYMBOLS[k as usize], i)).collect();
                 let id = format!("{}:seq", insts.iter().map(|i| i.name()).collect::<Vec<_>>().join(","));
+                // the same sequence with every id renamed so that ids DESCEND along the stream, and with all ids equal
+                // (where an instruction ends up must not depend on the magnitude or order of ids)
+                if s.len() <= 4 {
+                    for (tag, f) in [("desc", (&|x: u32| 6000 - x) as &dyn Fn(u32) -> u32), ("same", &|_| 7)] {
+                        let renamed: Vec<Inst> = insts.iter().map(|i| model::remap_ids(i, f)).collect();
+                        let (v2, _) = check_case(&Case { id: format!("{}:{}", id, tag), insts: renamed, raw: None, version: 0x0001_0000, bound: 7000 });
+                        for x in v2 {
+                            if viols.len() < 20 && !viols.iter().any(|y| y.key == x.key) {
+                                viols.push(x);
+                            }
+                        }
+                    }
+                }
                 let (v, o) = check_case(&Case { id, insts, raw: None, version: 0x0001_0000, bound: 1000 });
                 for x in v {
                     if viols.len() < 20 && !viols.iter().any(|y| y.key == x.key) {
